@@ -584,6 +584,9 @@ class Engine:
                     if len(res) == 1 and res[0][0] == OK:
                         return res[0][2]    # a property: reading it runs its (real) body
                     raise Unsupported(f"property {attr} with several outcomes")
+            hook = getattr(self.reg, "value_attrs", {}).get((getattr(ty, "name", None), attr))
+            if hook is not None:
+                return hook(self, st, base)
             if isinstance(ty, Enum) and attr == "value":
                 return ops.enum_value(base)
             if isinstance(ty, Enum) and attr == "name":
@@ -753,7 +756,12 @@ class Engine:
         return Val(z3.If(ty.opt.is_some(cell), ty.opt.val(cell), dflt), ty.val)
 
     def note_card_map_store(self, st, base, kterm):
-        pass  # cardinality facts are emitted by the builtin layer where a contract asks for them
+        """len(dict) bookkeeping: storing under a key grows the key set by one exactly when the key was absent"""
+        ty = base.ty
+        ks = ty.key.sort()
+        old_keys = ops.set_keys(base).term
+        new_keys = ops.set_keys(Val(z3.Store(base.term, kterm, ty.opt.some(z3.Const(fresh_name("anyv"), ty.val.sort()))), ty)).term
+        st.assume(ops.card(new_keys, ks) == ops.card(old_keys, ks) + z3.If(ty.opt.is_some(z3.Select(base.term, kterm)), 0, 1))
 
     # comprehension / lambda / misc
     def e_Lambda(self, node, st):
@@ -774,9 +782,12 @@ class Engine:
 
     def e_ListComp(self, node, st):
         """[f(x) for x in seq]  (no filter): a sequence of the same length, element-wise image."""
-        if len(node.generators) != 1 or node.generators[0].ifs or node.generators[0].is_async:
-            raise Unsupported("list comprehension with filter / nesting")
+        if len(node.generators) != 1 or node.generators[0].is_async:
+            raise Unsupported("nested list comprehension")
         g = node.generators[0]
+        if node.generators[0].ifs:
+            # a filtered comprehension over dict items / a set yields each surviving element once: its set view is exact
+            return self.e_SetComp(node, st)
 
         def k(s, it):
             if isinstance(it, (ListVal, TupleVal)):
